@@ -14,6 +14,10 @@
 //!     exactly the reported size; the row-major scan of written cells must be the sequence of
 //!     printable cells of the text (minus the cells an independent layout model places beyond
 //!     the right edge when wrapping is off).
+//!     A text is not only laid out when it is new: reuse cases keep ONE `Text` (and clones of it)
+//!     alive and lay it out + render it several times -- under contexts with and without glyph
+//!     support (and different cell sizes), at the same and at other widths, before and after
+//!     mutations through `CellWrite` -- and hold every layout + render pair to the same oracle.
 
 use crate::engine::*;
 use crate::hostile;
@@ -152,6 +156,35 @@ pub struct TextCase {
     /// maximum width 1..20
     pub w: u8,
     pub items: Vec<Item>,
+    /// non-empty: the text is a long-lived object. It is laid out and rendered as above, then the
+    /// steps are executed on the same object
+    #[serde(default)]
+    pub reuse: Vec<ReStep>,
+}
+
+/// which object a `ReStep::Show` lays out
+#[derive(Clone, Copy, Debug, PartialEq, Eq, Serialize, Deserialize)]
+pub enum Who {
+    /// the long-lived text itself
+    Same,
+    /// a clone made for this step and dropped after it
+    Clone,
+    /// the long-lived text is replaced by a clone of itself first (the original is dropped)
+    ReplacedByClone,
+}
+
+#[derive(Clone, Debug, Serialize, Deserialize)]
+pub enum ReStep {
+    /// layout for max width `w` (`None`: the width of the case, i.e. the same width again) under
+    /// a context with / without glyph support and `ppc` pixels per cell (`None`: those of the
+    /// case), render into a fresh surface of the reported size; held to oracle (3)
+    Show { glyphs: bool, w: Option<u8>, ppc: Option<(u8, u8)>, who: Who },
+    /// more items written into the text through `CellWrite`
+    Push(Vec<Item>),
+    /// `set_wraps`
+    Wraps(bool),
+    /// `clear()` then these items
+    Rewrite(Vec<Item>),
 }
 
 #[derive(Clone, Debug, Serialize, Deserialize)]
@@ -922,11 +955,151 @@ fn layout_render_scan(view: &dyn View, ctx: &ViewContext, max_w: usize, tag: &st
 }
 
 pub fn check_text(c: &TextCase) -> Outcome {
+    if !c.reuse.is_empty() {
+        return check_reuse(c);
+    }
+    let built = build_items(&c.items, c.ppc);
+    let text = guard_val(|| build_text(&built, c.wraps, face(c.tface)))?;
+    check_shot(c, &built, &text)
+}
+
+/// A long-lived text: laid out + rendered, then `c.reuse` executed on the same object. Every
+/// layout + render pair is held to `check_shot` for the items / wrap mode the text has at that
+/// moment and the context / width of the step. A failure that a freshly built text of the same
+/// content shows as well is reported as that (single-layout) failure; one that only the reused
+/// object shows gets a `text-reuse/...` signature naming what changed since its last layout.
+fn check_reuse(c: &TextCase) -> Outcome {
+    let mut items: Vec<Item> = c.items.clone();
+    let mut built = build_items(&items, c.ppc);
+    let mut wraps = c.wraps;
+    let mut tface = c.tface;
+    let mut text = guard_val(|| build_text(&built, wraps, face(tface)))?;
+    // (glyphs, ppc, w) of the previous layout of the long-lived object, and whether it was
+    // mutated since
+    let mut prev: Option<(bool, (u8, u8), u8)> = None;
+    let mut mutated = false;
+    let mut seen: Vec<(bool, (u8, u8), u8)> = Vec::new();
+    let mut labels: std::collections::BTreeSet<String> = Default::default();
+    let mut nontrivial = false;
+    let (mut n_shows, mut n_mut) = (0usize, 0usize);
+    let first = ReStep::Show { glyphs: c.glyphs, w: None, ppc: None, who: Who::Same };
+    for (k, step) in std::iter::once(&first).chain(c.reuse.iter()).enumerate() {
+        match step {
+            ReStep::Push(more) => {
+                let more_built = build_items(more, c.ppc);
+                guard_val(|| more_built.iter().for_each(|item| put_direct(&mut text, item)))?;
+                items.extend(more.iter().cloned());
+                built.extend(more_built);
+                mutated = true;
+                n_mut += 1;
+            }
+            ReStep::Wraps(b) => {
+                guard_val(|| text.set_wraps(*b))?;
+                wraps = *b;
+                mutated = true;
+                n_mut += 1;
+            }
+            ReStep::Rewrite(new) => {
+                let new_built = build_items(new, c.ppc);
+                guard_val(|| {
+                    text.clear();
+                    new_built.iter().for_each(|item| put_direct(&mut text, item));
+                })?;
+                // `clear` resets the face the next symbols are written with
+                tface = 0;
+                items = new.clone();
+                built = new_built;
+                mutated = true;
+                n_mut += 1;
+            }
+            ReStep::Show { glyphs, w, ppc, who } => {
+                let key = (*glyphs, ppc.unwrap_or(c.ppc), w.unwrap_or(c.w));
+                let shot = TextCase { glyphs: key.0, ppc: key.1, wraps, tface, w: key.2, items: items.clone(), reuse: Vec::new() };
+                let since = match prev {
+                    None => "first-layout",
+                    Some(_) if mutated => "after-mutation",
+                    Some(p) if p.0 != key.0 => "after-glyph-support-change",
+                    Some(p) if p.1 != key.1 => "after-cell-size-change",
+                    Some(p) if p.2 != key.2 => "after-width-change",
+                    Some(_) => "same-context-and-width-again",
+                };
+                let result = match who {
+                    Who::Same => check_shot(&shot, &built, &text),
+                    Who::Clone => {
+                        let copy = guard_val(|| text.clone())?;
+                        check_shot(&shot, &built, &copy)
+                    }
+                    Who::ReplacedByClone => {
+                        text = guard_val(|| text.clone())?;
+                        check_shot(&shot, &built, &text)
+                    }
+                };
+                match result {
+                    Ok(p) => {
+                        nontrivial |= p.nontrivial;
+                        labels.extend(p.labels);
+                    }
+                    Err(f) => {
+                        // the same content in a text nobody has laid out before
+                        let fresh = guard_val(|| build_text(&built, wraps, face(tface)))?;
+                        check_shot(&shot, &built, &fresh)?;
+                        let what = f.sig.split('/').nth(1).unwrap_or("failure").to_string();
+                        return Err(Fail::new(
+                            format!("text-reuse/{what}/{since}"),
+                            format!(
+                                "long-lived Text, step {k} of [initial layout, {:?}] ({}; layouts so far (glyph support, pixels per cell, max width): {:?}): {} -- a freshly built text with the same cells passes the same layout + render",
+                                c.reuse,
+                                match who {
+                                    Who::Same => "the object itself",
+                                    Who::Clone => "a clone of it",
+                                    Who::ReplacedByClone => "replaced by its clone",
+                                },
+                                seen,
+                                f.msg
+                            ),
+                        ));
+                    }
+                }
+                if prev.is_some() {
+                    labels.insert(format!("text/reuse:layout-{since}"));
+                    if *who != Who::Same {
+                        labels.insert("text/reuse:clone-laid-out".into());
+                    }
+                    if !mutated && seen.iter().any(|s| s.2 == key.2 && (s.0, s.1) != (key.0, key.1)) {
+                        labels.insert("text/reuse:same-width-other-context-no-mutation-between".into());
+                    }
+                }
+                // a temporary clone leaves the long-lived object as it was
+                if *who != Who::Clone {
+                    prev = Some(key);
+                    if mutated {
+                        seen.clear();
+                    }
+                    mutated = false;
+                } else if prev.is_none() {
+                    prev = Some(key);
+                }
+                seen.push(key);
+                n_shows += 1;
+            }
+        }
+    }
+    let mut pass = Pass::new(nontrivial && n_shows >= 2)
+        .label("text/reuse")
+        .label_if(n_shows >= 3, "text/reuse:layouts>=3")
+        .label_if(n_mut > 0, "text/reuse:mutated");
+    for l in labels {
+        pass = pass.label(l);
+    }
+    Ok(pass)
+}
+
+/// Oracle (3) for one layout + render of `text`, which holds the cells `built` (made from
+/// `c.items`), under the context (`c.glyphs`, `c.ppc`), wrap mode and max width of `c`
+fn check_shot(c: &TextCase, built: &[BItem], text: &Text) -> Outcome {
     let term = RecTerm::new(Size::new(24, 80), Size::new(c.ppc.0.max(1) as usize, c.ppc.1.max(1) as usize), c.glyphs);
     let ctx = term.ctx();
-    let built = build_items(&c.items, c.ppc);
     let max_w = (c.w as usize).max(1);
-    let text = guard_val(|| build_text(&built, c.wraps, face(c.tface)))?;
     let desc = format!("text [{}] max width {max_w} wraps={} glyph support={}", show_items(&c.items), c.wraps, c.glyphs);
 
     // the cells of the text, aligned with the items that produce a cell
@@ -978,9 +1151,14 @@ pub fn check_text(c: &TextCase) -> Outcome {
                     unit_units.push(Unit { cell: cell.clone(), ctrl: None, w: prefix, h: 1, group: Some(n), prefix: 0 });
                 }
             }
-            BItem::Image { image, h, w } => {
+            BItem::Image { image, .. } => {
                 image_ids.push((image.clone(), n));
-                let u = Unit { cell: cell.clone(), ctrl: None, w: *w, h: *h, group: None, prefix: 0 };
+                // cells = ceil(pixels / pixels per cell of the context the text is shown under
+                // (which for a long-lived text need not be the one its images were made for)
+                let px = Surface::size(image);
+                let (ph, pw) = (c.ppc.0.max(1) as usize, c.ppc.1.max(1) as usize);
+                let (h, w) = if px.height == 0 || px.width == 0 { (0, 0) } else { (ceil_div(px.height, ph), ceil_div(px.width, pw)) };
+                let u = Unit { cell: cell.clone(), ctrl: None, w, h, group: None, prefix: 0 };
                 unit_units.push(u.clone());
                 units.push(u);
             }
@@ -1037,7 +1215,7 @@ pub fn check_text(c: &TextCase) -> Outcome {
     };
 
     // layout and render
-    let (size, scanned) = layout_render_scan(&text, &ctx, max_w, "text", &desc)?;
+    let (size, scanned) = layout_render_scan(text, &ctx, max_w, "text", &desc)?;
     let got: Vec<(Position, &Cell)> = scanned.iter().map(|(p, cell)| (*p, cell)).collect();
 
     let show = |cell: &Cell| show_cell(cell, &glyph_ids, &image_ids);
@@ -1246,8 +1424,27 @@ fn text_strategy() -> BoxedStrategy<Case> {
         1 => proptest::collection::vec(item_strategy(true, 1), 0..40),
         1 => proptest::collection::vec(chars_only, 0..40),
     ];
-    (any::<bool>(), ppc_strategy(), any::<bool>(), 0u8..6, 1u8..20, items)
-        .prop_map(|(glyphs, ppc, wraps, tface, w, items)| Case::Text(TextCase { glyphs, ppc, wraps, tface, w, items }))
+    // long-lived texts (1 text case in 6): 1..4 further steps on the same object, mostly layouts
+    let who = prop_oneof![4 => Just(Who::Same), 2 => Just(Who::Clone), 1 => Just(Who::ReplacedByClone)];
+    let show = (
+        any::<bool>(),
+        prop_oneof![3 => Just(None), 2 => (1u8..20).prop_map(Some)],
+        prop_oneof![5 => Just(None), 1 => ppc_strategy().prop_map(Some)],
+        who,
+    )
+        .prop_map(|(glyphs, w, ppc, who)| ReStep::Show { glyphs, w, ppc, who });
+    let step = prop_oneof![
+        12 => show,
+        2 => proptest::collection::vec(item_strategy(false, 1), 1..6).prop_map(ReStep::Push),
+        1 => any::<bool>().prop_map(ReStep::Wraps),
+        1 => proptest::collection::vec(item_strategy(false, 1), 0..20).prop_map(ReStep::Rewrite),
+    ];
+    let reuse = prop_oneof![
+        5 => Just(Vec::new()).boxed(),
+        1 => proptest::collection::vec(step, 1..5).boxed(),
+    ];
+    (any::<bool>(), ppc_strategy(), any::<bool>(), 0u8..6, 1u8..20, items, reuse)
+        .prop_map(|(glyphs, ppc, wraps, tface, w, items, reuse)| Case::Text(TextCase { glyphs, ppc, wraps, tface, w, items, reuse }))
         .boxed()
 }
 
@@ -1282,8 +1479,9 @@ impl Property for C09 {
         "items: narrow / wide (世 🤩 한 Ａ) / zero-width (U+0301, NUL, BEL, U+200B) characters, \\n, \\t, \\r, glyphs 1x1..2x3 with fallback strings (empty, 1..12 chars, wide, combining), images 0..2 x 1..3 cells (pixel sizes exact or one pixel short), face changes; faces from a pool of 6 (incl. translucent colours); glyph support on/off; pixels per cell 1x1..4x3; wrap on/off. \
          (a) writer cases (50%): canvas 1..12 x 1..16 of pairwise different sentinel cells; window = 0..3 steps of view_mut / view_owned with generated non-empty ranges, strided hand-built Shape (every 1..3rd row/column), transpose, rarely an empty selection; the window is modelled as a matrix of canvas offsets. 0..59 items written through: TerminalWriter put_cell/put_char/put_glyph/put_image; its io::Write; by_ref().utf8_writer(); by_ref().tty_writer() with SGR sequences from a pool of 9; a Text filled through utf8_writer/tty_writer then draw_view; put_text; draw_view of a Text; Text layout_new(loose(0..14 x 0..20)) + render. Byte paths run three times (single write_all per run of bytes, generated cuts incl. cuts forced inside multi-byte units, byte at a time); glyphs/images are put directly between the byte runs. Oracles: every canvas cell outside the window equals its sentinel; whole canvas (and Text::cells) identical across partitions; cursor identical unless both cursors are below the last row. \
          (b) text cases (50%): Text of 0..39 items (10% may contain \\r, 10% characters only; a wrapping text of characters only is also checked as a `str` view), layout_new(loose(10000 x w)), w in 1..19, render into a fresh sentinel surface of exactly the reported size; row-major scan of non-sentinel cells must equal (kind, then face) the printable cells of the text in order (glyph without glyph support: its fallback characters with the glyph cell's face); with wrapping off, or with \\r, the expected sequence is the one an independent layout model places. \
+         One text case in 6 is a long-lived text: after that first layout + render the SAME Text object goes through 1..4 further steps: mostly another layout + render (glyph support on/off at random, i.e. both settings in both orders; max width the same again (60%) or another one in 1..19; pixels per cell the same or (1 in 6) others; on the object itself, on a temporary clone, or after replacing the object by its clone), otherwise a mutation through CellWrite (1..5 more items, set_wraps, or clear() + 0..19 new items). Every layout + render pair is held to the oracle above for the cells / wrap mode the text has at that moment and the context / width of that step; a failure that a freshly built text with the same cells does not show is reported as text-reuse/<lost-cell|extra-cell|order|face|...>/<what changed since the object's previous layout: after-glyph-support-change, after-cell-size-change, after-width-change, same-context-and-width-again, after-mutation>, one that the fresh text shows too under its usual text/... signature. \
          sweep: all texts of length <= 4 over {a, 世, \\n, \\t, glyph 1x2 \"ab\", glyph 1x1 \"abc\", image 2x1} x w in 1..=4 x wrap x glyph support. \
-         non-trivial = (a) window is a proper part of the canvas, cells were changed, a newline/overflow/more cells than one row, at least one wide char/tab/glyph/image and, on byte paths, a multi-byte unit (always cut by the byte-at-a-time run); (b) at least one wrap, drop or newline and at least one wide char/tab/glyph/image, something printable".into()
+         non-trivial = (a) window is a proper part of the canvas, cells were changed, a newline/overflow/more cells than one row, at least one wide char/tab/glyph/image and, on byte paths, a multi-byte unit (always cut by the byte-at-a-time run); (b) at least one wrap, drop or newline and at least one wide char/tab/glyph/image, something printable; long-lived texts: at least two layouts, one of them non-trivial by the rule of (b)".into()
     }
 
     fn assumptions(&self) -> Vec<String> {
@@ -1297,6 +1495,7 @@ impl Property for C09 {
             "cursor comparison in (a): cursors may differ when both are below the last row of the window (io::Write stops consuming a buffer once a put reports out of space; no later byte can produce a cell there)".into(),
             "the faces given to cells skipped by tab/newline are not checked (the property is silent), nor the content of a text rendered into a surface smaller than its layout, nor positions of cells (only the reading order)".into(),
             "fallback strings contain no control characters; byte streams are valid UTF-8 plus well-formed SGR sequences".into(),
+            "long-lived texts: the statement's 'a text ... its own layout' is not restricted to a text that is laid out for the first time, so a Text (or a clone: Clone is taken to yield an equivalent text) that was laid out before, under whatever context and width, is held to the same oracle at every later layout + render; the text's content at that moment is what the CellWrite calls so far produce when made on a new Text (clear() resets the face for the following symbols to the default); images keep their pixels, under other pixels per cell they cover ceil(pixels / pixels per cell) cells".into(),
         ]
     }
 
@@ -1324,7 +1523,7 @@ impl Property for C09 {
                 for w in 1u8..=4 {
                     for wraps in [true, false] {
                         for glyphs in [true, false] {
-                            let case = TextCase { glyphs, ppc: (2, 1), wraps, tface: 0, w, items: items.clone() };
+                            let case = TextCase { glyphs, ppc: (2, 1), wraps, tface: 0, w, items: items.clone(), reuse: Vec::new() };
                             sw.evaluations += 1;
                             match guard(|| check_text(&case)) {
                                 Ok(p) => {
